@@ -49,6 +49,29 @@ pub fn elision_variants(c: &mut Ctx, b: &Budget) {
         let mut r = gen_env(c, &cfg, 3);
         if i % 3 == 0 { let n = gen_obscure(c, &r); if c.is_ok(&n) { r = n; } }
         let e = match c.env(&r) { Some(e) => e, None => { c.end(); continue; } };
+        // through the scenario language too: the array and single-target doors against the model's definitions
+        {
+            let els = elements(&e);
+            let mut regs: Vec<String> = vec![];
+            for _ in 0..c.rng.range(0, 3) { let k = c.rng.below(els.len()); regs.push(c.assign(&format!("at {} {}", r, els[k].0))); }
+            if c.rng.chance(1, 3) { regs.push(c.assign("leaf 6d616273656e7420746172676574")); }      // a target that occurs nowhere
+            if c.rng.chance(1, 4) && !regs.is_empty() { let d = regs[0].clone(); regs.push(d); }
+            for act in ["elide".to_string(), "compress".to_string(), format!("encrypt:{}", KEY1)] {
+                for mode in ["rem", "rev"] {
+                    if !regs.is_empty() {
+                        let x = c.assign(&format!("elide_array {} {} {} {}", r, mode, act, regs.join(",")));
+                        c.no_panic(&x, "obscuring"); c.obs(&format!("shape {}", x));
+                        let y = c.assign(&format!("elide_set {} {} {} {}", r, mode, act, regs.join(",")));
+                        c.obs(&format!("eq {} {}", x, y));
+                    }
+                    // the single-target door, also with a target that occurs nowhere
+                    let t = if regs.is_empty() || c.rng.chance(1, 3) { c.assign("leaf 6d616273656e7420746172676574") } else { regs[c.rng.below(regs.len())].clone() };
+                    let x = c.assign(&format!("elide_target {} {} {} {}", r, mode, act, t));
+                    c.no_panic(&x, "obscuring"); c.obs(&format!("shape {}", x));
+                    c.count("variant:evl-doors");
+                }
+            }
+        }
         let ts = pick_targets(c, &e);
         let set: HashSet<Digest> = ts.iter().map(|t| t.digest().into_owned()).collect();
         let arr: Vec<&dyn DigestProvider> = ts.iter().map(|t| t as &dyn DigestProvider).collect();
